@@ -36,7 +36,7 @@ Section LB.
   Lemma HS : (0 < nS (pm m))%nat.
   Proof. destruct Hwf as [[H _] _]. exact H. Qed.
   Lemma HAne : seq 0 (nA (pm m)) <> [].
-  Proof. pose proof (HA m Hwf). destruct (nA (pm m)); [lia| cbn; discriminate]. Qed.
+  Proof. pose proof (HA m (wf_pomdp_weaken m Hwf)). destruct (nA (pm m)); [lia| cbn; discriminate]. Qed.
 
   (* expectimax with a terminal value c per unit of mass *)
   Definition W (c : Q) (n : nat) (t : vec) : Q := EV m n t + pw m n * c * mass m t.
@@ -63,7 +63,7 @@ Section LB.
     { rewrite maxl_affine by (apply HAne || lra). lra. }
     apply maxl_map_ext'. intros a Ha. apply in_seq in Ha. unfold W.
     rewrite qsum_map_add. rewrite qsum_map_mul_l.
-    rewrite (mass_conservation m Hwf t a) by lia. rewrite pw_S by apply Hg. fold g. ring.
+    rewrite (mass_conservation m (wf_pomdp_weaken m Hwf) t a) by lia. rewrite pw_S by apply Hg. fold g. ring.
   Qed.
 
   Definition lbS_at (c : Q) (n : nat) (v : vec) : Prop :=
@@ -141,9 +141,9 @@ Section LB.
     intros c a ch Hc Ha H t Ht Hl. rewrite vval_backup_vec by exact Hl.
     unfold W. cbn [EV]. rewrite pw_0.
     assert (Hfut : qsum (map (fun o => vval m (ch o) (tau_step m t a o)) (seq 0 (nO m))) <= c * mass m t).
-    { rewrite <- (mass_conservation m Hwf t a Ha). rewrite <- qsum_map_mul_l. apply qsum_map_le.
+    { rewrite <- (mass_conservation m (wf_pomdp_weaken m Hwf) t a Ha). rewrite <- qsum_map_mul_l. apply qsum_map_le.
       intros o Ho. apply in_seq in Ho.
-      pose proof (H o ltac:(lia) (tau_step m t a o) (tau_step_nonneg m Hwf t a o Ht Ha) (tau_step_length m t a o)) as Hv.
+      pose proof (H o ltac:(lia) (tau_step m t a o) (tau_step_nonneg m (wf_pomdp_weaken m Hwf) t a o Ht Ha) (tau_step_length m t a o)) as Hv.
       unfold W in Hv. cbn [EV] in Hv. rewrite pw_0 in Hv. lra. }
     pose proof (rew_at_le_c (c - g * c) t a Ht Ha) as Hr.
     assert (Hr' : rew_at m t a <= (c - g * c) * mass m t).
@@ -160,7 +160,7 @@ Section LB.
     assert (Hfut : qsum (map (fun o => vval m (ch o) (tau_step m t a o)) (seq 0 (nO m))) <=
                    qsum (map (fun o => W c n (tau_step m t a o)) (seq 0 (nO m)))).
     { apply qsum_map_le. intros o Ho. apply in_seq in Ho.
-      apply (H o ltac:(lia)); [apply (tau_step_nonneg m Hwf); assumption| apply tau_step_length]. }
+      apply (H o ltac:(lia)); [apply (tau_step_nonneg m (wf_pomdp_weaken m Hwf)); assumption| apply tau_step_length]. }
     pose proof Hg. nra.
   Qed.
 
@@ -208,7 +208,7 @@ Section LB.
   (* ---- BlindStrategies *)
   Lemma sum_O_row : forall s1 a (x : Q), (s1 < S)%nat -> (a < nA (pm m))%nat ->
     qsum (map (fun o => Op m s1 a o * x) (seq 0 (nO m))) == x.
-  Proof. intros. rewrite qsum_map_mul_r. rewrite (orow_sum m Hwf) by (unfold S in *; assumption). ring. Qed.
+  Proof. intros. rewrite qsum_map_mul_r. rewrite (orow_sum m (wf_pomdp_weaken m Hwf)) by (unfold S in *; assumption). ring. Qed.
 
   Lemma nthq_backup_const : forall a v s, (s < S)%nat -> (a < nA (pm m))%nat ->
     nthq (backup_vec m a (fun _ => v)) s ==
@@ -322,7 +322,7 @@ Section LB.
       + assert (E : qsum (map (fun s1 => Tp m s a s1 * nthq (repeat k S) s1) (seq 0 S)) == k).
         { transitivity (qsum (map (fun s1 => k * Tp m s a s1) (seq 0 S))).
           - apply qsum_map_ext. intros s1 Hs1. apply in_seq in Hs1. rewrite nthq_repeat by lia. ring.
-          - rewrite qsum_map_mul_l. pose proof (trow_sum m Hwf s a Hs Ha) as E1. fold S in E1. rewrite E1. ring. }
+          - rewrite qsum_map_mul_l. pose proof (trow_sum m (wf_pomdp_weaken m Hwf) s a Hs Ha) as E1. fold S in E1. rewrite E1. ring. }
         rewrite E. lra.
   Qed.
 
